@@ -25,6 +25,20 @@ class MNodeView(Model):
     def __len__(self):
         return len(self._attrs)
 
+    def __call__(self, data=False, default=None):
+        names = list(self)
+        if data is True:
+            return [(n, self._attrs[n]) for n in names]
+        if data:
+            return [(n, self._attrs[n].get(data, default)) for n in names]
+        return names
+
+    def data(self, key=None, default=None):
+        return [(n, self._attrs[n] if key is None or key is True else self._attrs[n].get(key, default)) for n in self]
+
+    def items(self):
+        return [(n, self._attrs[n]) for n in self]
+
 
 class MGraph(Model):
     def __init__(self, circuit):
